@@ -56,6 +56,8 @@ func (g *gen) bindResult(res ssa.Value, v *Val) {
 }
 
 func (g *gen) call(st *State, instr ssa.Instruction, cc *ssa.CallCommon, res ssa.Value) {
+	g.curCall = cc
+	defer func() { g.curCall = nil }()
 	rt := resultType(cc)
 	lbl := g.lbl(instr.Pos(), "call", cc.String())
 	if cc.IsInvoke() {
@@ -1011,16 +1013,22 @@ func (g *gen) checkCallGuards(st *State, callee string, lbl string, args []*Val)
 	}
 }
 
-func (g *gen) checkStoreGuards(st *State, k LeafKey) {
+func (g *gen) checkStoreGuards(st *State, k LeafKey, local bool, val *Term) {
 	if g.con == nil || g.dry > 0 {
 		return
 	}
 	for gi := range g.con.StoreGuards {
 		sg := &g.con.StoreGuards[gi]
 		name := shortType(k.Type) + "." + k.Path
+		// a guard marked "+" also covers stores into objects allocated by this call
+		if local && !sg.Fresh {
+			continue
+		}
 		if !sg.Pattern.MatchString(name) {
 			continue
 		}
+		g.storedVal = val
+		defer func() { g.storedVal = nil }()
 		sg.Used = true
 		env := g.specEnv(st, g.entry)
 		g.bindLocals(env)
